@@ -234,9 +234,8 @@ def setupImpl (P : Project) (g : G) (cfg : Cfg) (s : Sess) (t : TaskSpec) (name 
     else if s.failMarks.contains t.id then .ancestorFailed
     else .none
   else if name == "persist" then
-    -- F20-FLIP: when the repair of finding F20 (fixes/F20.diff: persist only a task that does not carry the `would_be_executed`
-    -- mark) is committed to /repo, the next line becomes `if t.persist && !s.wbeMarks.contains t.id then` (see fixes/F20.model.diff)
-    if t.persist then
+    -- (repair of finding F20: a task carrying the `would_be_executed` mark is not persisted)
+    if t.persist && !s.wbeMarks.contains t.id then
       let ns := neighbours g t.id
       let sts := ns.map (stateOf P s.w)
       if sts.all (·.isSome) then
